@@ -410,6 +410,7 @@ func TestPipelines(t *testing.T) {
 
 // The witness found by reading (D2): an incrementing write followed by a helper.
 func TestIncrementThenHelper(t *testing.T) {
+	harness.OnlyFirstShard(t)
 	red := ops.ColorV{T: 0, R: 0xff, A: 0xff}
 	c := Case{ViewBox: [4]ops.F32{-32, -32, 32, 32}, Palette: ops.DefaultPalette(), Rect: [4]int{0, 0, 64, 64}}
 	c.Actions = []Action{
